@@ -90,6 +90,10 @@ func GenRandom(r *hx.Rand, maxLen int) Input {
 			st.Op, st.K = "sendfail", r.Range(1, 4)
 		case x < 95:
 			st.Op = "teardown"
+			if r.Bool() {
+				// a graceful stop with records read beyond the last ack
+				in.Steps = append(in.Steps, Step{Op: "read", S: st.S, K: r.Range(1, 3)}, Step{Op: "stop", S: st.S})
+			}
 		case x < 97:
 			st.Op = "holdsend"
 		case x < 99:
@@ -100,7 +104,7 @@ func GenRandom(r *hx.Rand, maxLen int) Input {
 		in.Steps = append(in.Steps, st)
 	}
 	if r.Chance(1, 8) {
-		kind := r.Intn(2)
+		kind := r.Intn(3)
 		if kind == 1 {
 			in.Gated = true
 			in.Bundle = 10000
@@ -130,6 +134,8 @@ func GenRandom(r *hx.Rand, maxLen int) Input {
 //
 //	0 a send is parked in the plugin stream while a later ack is still in the debounce batch and
 //	  the source is torn down; the send is released while Teardown drains
+//	2 records read beyond the last ack, Source.Stop, Teardown (the stored position must stay at
+//	  the last acked record)
 //	1 a slow commit, two flush triggers during it, a further ack + flush, the later commits
 //	  finishing first (what a persister that lets flushes overlap turns into a stored position
 //	  that moves backwards)
@@ -155,6 +161,13 @@ func Shape(kind int, gated bool, s int, r *hx.Rand) []Step {
 		add(Step{Op: "ack", S: s, K: 1}, Step{Op: "teardown", S: s})
 		add(rel(true, false)...)
 		add(Step{Op: "releasesend", S: s})
+	case 2:
+		// records read beyond the last ack, a graceful stop, teardown: a restart must open at
+		// the last ACKED position
+		add(Step{Op: "read", S: s, K: 5}, Step{Op: "ack", S: s, K: 2}, trig())
+		add(rel(true, false)...)
+		add(Step{Op: "stop", S: s}, Step{Op: "teardown", S: s})
+		add(rel(true, false)...)
 	case 1:
 		// only meaningful on a gated store
 		add(Step{Op: "ack", S: s, K: 1}, Step{Op: "flush"})           // W1 parks
@@ -276,14 +289,15 @@ func Exhaustive(maxLen int, emit func(k int, in Input)) int {
 // Second small-scope family: one source on a store whose commits complete by themselves, so that
 // the letters about the plugin stream fit into the length bound:
 //
-//	a Ack(1)  f Flush  h HoldSend  u ReleaseSend  d Teardown  n SendFail(1)
+//	a Ack(1)  f Flush  h HoldSend  u ReleaseSend  d Teardown  n SendFail(1)  r Read(2)  p Stop
 var letters2 = []Step{
 	{Op: "ack", K: 1}, {Op: "flush"}, {Op: "holdsend"}, {Op: "releasesend"}, {Op: "teardown"}, {Op: "sendfail", K: 1},
+	{Op: "read", K: 2}, {Op: "stop"},
 }
 
 type absState2 struct {
-	batch, held, released, down bool
-	sendfails                    int
+	batch, held, released, down, stopped bool
+	sendfails, reads                     int
 }
 
 func (a absState2) step(i int) (absState2, bool) {
@@ -318,6 +332,16 @@ func (a absState2) step(i int) (absState2, bool) {
 			return a, false
 		}
 		a.sendfails++
+	case 6:
+		if a.down || a.stopped || a.reads >= 2 {
+			return a, false
+		}
+		a.reads++
+	case 7:
+		if a.down || a.stopped {
+			return a, false
+		}
+		a.stopped = true
 	}
 	return a, true
 }
